@@ -194,6 +194,21 @@ class Ctx(object):
                     p.kind = 'exc'
                     p.exc = e
                 p.decisions = self.pos
+                if 'unknown-feasibility' in p.notes:
+                    # some branch on this path was taken on an `unknown` answer: re-decide the whole path condition
+                    # with a larger budget; an infeasible path is dropped, an undecided one stays (and is flagged)
+                    s2 = self.new_solver()
+                    s2.set('timeout', 8 * self.timeout_ms)
+                    for c in p.conds():
+                        s2.add(c)
+                    t0 = time.time()
+                    r = s2.check()
+                    self.nq += 1
+                    self.t_solver += time.time() - t0
+                    if r == z3.unsat:
+                        continue
+                    if r == z3.unknown:
+                        p.notes.append('path-feasibility-undecided')
                 p.extra['atoms'] = self.atoms
                 p.extra['leaves'] = self.leaves
                 paths.append(p)
